@@ -490,15 +490,15 @@ VSANONLY = {"quick": ["vsan"], "thorough": ["vsan"]}
 SMALL = {"quick": ["small13", "small199"], "thorough": ["small13", "small199"]}
 
 TESTS = [
-    Test("compositions", compose_enum, run_sequence, kind="enum", cfgs=BOTH, max_workers=4,
+    Test("compositions", compose_enum, run_sequence, kind="enum", cfgs=BOTH, max_workers=8,
          must_cover=["n=0", "n=1", "n=6", "incremental>=2", "zero_increment", "small_buf_rejected", "ref_verified"]),
-    Test("sequences", sequence_case, run_sequence, quick=500, thorough=20000, cfgs=PRODONLY,
+    Test("sequences", sequence_case, run_sequence, quick=500, thorough=20000, cfgs=PRODONLY, max_workers=8,
          must_cover=["n=0", "n=64", "n<=63", "incremental>=2", "zero_increment", "ref_verified"]),
     Test("sequences_vsan", sequence_case, run_sequence, quick=60, thorough=1500, cfgs=VSANONLY, must_cover=["incremental>=2"]),
-    Test("strings", string_case, run_string, quick=3000, thorough=120000, cfgs=PRODONLY,
+    Test("strings", string_case, run_string, quick=3000, thorough=120000, cfgs=PRODONLY, max_workers=8,
          must_cover=["accept", "reject", "honest", "r>=p", "r_offcurve", "s>=n", "len_not_multiple_of_32", "len_for_other_n", "mut:len_plus32", "mut:swap_pks",
                      "mut:swap_msgs", "mut:alter_sig_before", "mut:alter_msg", "mut:drop_last", "n=0", "mut:s_neg", "negated_s_of_honest"]),
     Test("strings_vsan", string_case, run_string, quick=300, thorough=8000, cfgs=VSANONLY, must_cover=["accept", "reject"]),
-    Test("small_group", small_case, run_small, quick=1500, thorough=40000, cfgs=SMALL,
+    Test("small_group", small_case, run_small, quick=1500, thorough=40000, cfgs=SMALL, max_workers=3,
          must_cover=["honest_ok", "s_plus_k_order_rejected", "negated_s_rejected", "order=13", "order=199"]),
 ]
